@@ -5,6 +5,8 @@ import (
 	"fmt"
 	"net"
 	"net/http"
+	"os"
+	"path/filepath"
 	"strings"
 	"time"
 
@@ -631,6 +633,16 @@ func runC19(c *Ctx) {
 	soakDone := make(chan struct{})
 	go c19FailingOnly(c, soakDone)
 	defer func() { <-soakDone }()
+	// a wrapper that starts the server with a descriptor limit (for the silent-client phase)
+	if bin := c.Env["VERIF_SERVER_BIN"]; bin != "" {
+		wrap := filepath.Join(c.Env["VERIF_SCRATCH"], "server-fdlimit.sh")
+		if os.WriteFile(wrap, []byte("#!/bin/sh\nulimit -n 170 || exit 97\nexec \""+bin+"\" \"$@\"\n"), 0o755) == nil {
+			c.Env["VERIF_SERVER_BIN_FDLIMIT"] = wrap
+		}
+	}
+	silentDone := make(chan struct{})
+	go c19SilentClients(c, silentDone)
+	defer func() { <-silentDone }()
 	connDone := make(chan struct{})
 	go c19ConnectionFaults(c, connDone)
 	defer func() { <-connDone }()
